@@ -60,10 +60,12 @@ static vector<P> free_points(const vector<Poly> &sc, int G) {
     for (int x = 0; x <= G; x++) for (int y = 0; y <= G; y++) { P q{x, y}; bool in = false; for (auto &s : sc) if (inClosed(s, q)) in = true; if (!in) fr.push_back(q); }
     return fr;
 }
+static double g_anglePen = 0;   // anglePenalty (a polyline parameter: an orthogonal route must not depend on it)
 static Avoid::Router *mk_router(bool ortho, double segPen, double buf, const vector<Poly> &sc) {
     Avoid::Router *r = new Avoid::Router(ortho ? Avoid::OrthogonalRouting : Avoid::PolyLineRouting);
     r->setRoutingParameter(Avoid::segmentPenalty, segPen);
     r->setRoutingParameter(Avoid::shapeBufferDistance, buf);
+    if (g_anglePen > 0) r->setRoutingParameter(Avoid::anglePenalty, g_anglePen);
     if (getenv("VERIF_PROBE_NAIVE")) r->UseLeesAlgorithm = false;   // probe only (undocumented public flag)
     if (getenv("VERIF_PROBE_NOINVIS")) r->InvisibilityGrph = false;
     for (auto &sh : sc) { Avoid::Polygon pg(sh.v.size()); for (size_t k = 0; k < sh.v.size(); k++) pg.ps[k] = Avoid::Point(sh.v[k].x * S, sh.v[k].y * S); new Avoid::ShapeRef(r, pg); }
@@ -579,7 +581,7 @@ static int dirmask_end(unsigned f) { int m = 0; if (f & Avoid::ConnDirLeft) m |=
 
 static void c05_phase(int G, int k, double penCells, bool dirs) {
     vector<Poly> alpha = shape_alphabet(G, false);
-    ctx.phase(mcx::fmt("C05 orthogonal G=%d rects=%d segmentPenalty=%g cells dirs=%d", G, k, penCells, dirs));
+    ctx.phase(mcx::fmt("C05 orthogonal G=%d rects=%d segmentPenalty=%g cells dirs=%d%s", G, k, penCells, dirs, g_anglePen > 0 ? mcx::fmt(" anglePenalty=%g", g_anglePen).c_str() : ""));
     for_scenes(alpha, k, 1, true, [&](const vector<Poly> &sc) {
         if (!ctx.next()) return;
         vector<P> fr = free_points(sc, G); vector<R> rs; for (auto &p : sc) rs.push_back(toR(p));
@@ -758,6 +760,8 @@ int main(int argc, char **argv) {
         for (double pen : {0.5, 1.0, 2.0, 3.0, 10.0}) { c05_phase(4, 1, pen, false); c05_phase(4, 2, pen, false); }   // 1 and 3 cells: exact ties between "one more bend" and "k more cells"
         // penalties BELOW one library unit (0.5 and 0.25): rival routes of equal length differ in cost by less than 1, the scale at which an integer-truncated comparison goes wrong
         for (double pen : {0.05, 0.025}) { c05_phase(4, 1, pen, false); c05_phase(4, 2, pen, false); } c05_phase(4, 1, 0.05, true);
+        // anglePenalty set (it prices polyline bends by their angle): the orthogonal optimum is length + segmentPenalty * bends all the same
+        for (double ap : {40.0, 400.0}) { g_anglePen = ap; c05_phase(4, 1, 2, false); c05_phase(4, 2, 2, false); c05_phase(4, 2, 0.5, false); } g_anglePen = 0;
         c05_phase(3, 1, 2, true); c05_phase(4, 1, 2, true); c05_phase(4, 2, 2, true); c05_phase(4, 3, 2, false); c05_phase(4, 3, 1, false);
         c05_star_phase(4, 1, 2); c05_star_phase(4, 2, 2); c05_star_phase(4, 2, 0.5); c05_star_phase(3, 3, 1);
         c05_reconfig_phase(4, 1, {0.5, 1, 0.5, 3, 0.5, 10, 1, 3, 1, 10, 3, 10, 0.5}); c05_reconfig_phase(4, 2, {1, 10, 0.5}); c05_reconfig_phase(5, 2, {0.5, 1, 0.5, 3, 0.5, 10, 1, 3, 1, 10, 3, 10, 0.5}, true);
